@@ -14,15 +14,19 @@ using namespace vf;
 
 namespace {
 
-std::string check_optimality(const FitProblem& p, const DenseSys& S, const float* c, double& worst) {
+std::string check_optimality(const FitProblem& p, const DenseSys& S, const float* c, double& worst, LD cond) {
   size_t n = S.n;
   worst = 0;
+  LD cmax = 0; for (size_t j = 0; j < n; j++) cmax = std::max(cmax, fabsl((LD)c[j]));
   for (size_t i = 0; i < n; i++) {
-    LD s = 0, m = 0;
-    for (size_t j = 0; j < n; j++) { LD a = S.A[i * n + j]; if (a == 0) continue; s += a * (LD)c[j]; m += fabsl(a) * fabsl((LD)c[j]); }
+    LD s = 0, m = 0, arow = 0;
+    for (size_t j = 0; j < n; j++) { LD a = S.A[i * n + j]; if (a == 0) continue; s += a * (LD)c[j]; m += fabsl(a) * fabsl((LD)c[j]); arow += fabsl(a); }
     LD res = fabsl(s - S.r[i]), scale = m + fabsl(S.r[i]);
-    double kappa = 16.0;  // coefficients are rounded to float: |A (c_float - c)| <= eps_f |A||c|; the double solve adds cond*eps_d
-    double tol = kappa * FLT_EPSILON * (double)scale + 1e-30;
+    double kappa = 16.0;  // coefficients are rounded to float: |A (c_float - c)| <= eps_f |A||c|
+    // the double-precision sparse solve is backward stable in the norm sense only: its error in any coefficient is
+    // up to cond*eps_d*max|c|, which in a row whose own terms are tiny (margin cells of a high-order dimension
+    // next to O(1) cells) exceeds the row's float-rounding allowance
+    double tol = kappa * FLT_EPSILON * (double)scale + (double)(64 * cond * (LD)DBL_EPSILON * arow * cmax) + 1e-30;
     if (scale > 0) worst = std::max(worst, (double)(res / (FLT_EPSILON * scale)));
     if (!((double)res <= tol)) {
       std::ostringstream o;
@@ -59,7 +63,7 @@ CaseResult body_objective(Chooser& ch, Stats* st) {
     st->sample(r.json);
   }
   double worst = 0;
-  std::string e = check_optimality(p, S, t.get_coefficients(), worst);
+  std::string e = check_optimality(p, S, t.get_coefficients(), worst, cond);
   if (st) st->maxi("max_residual_over_epsf_scale", worst);
   if (!e.empty()) { r.fail = e; return r; }
   // (2) agreement with the reference minimiser when well conditioned
